@@ -720,3 +720,30 @@ Print Assumptions c09_code_await_100.
 Print Assumptions c09_code_send_body.
 Print Assumptions c09_code_recv_response.
 Print Assumptions c09_code_recv_body.
+
+(* ================================================================== the flags the decisions read (translated from the source) *)
+(** The decision skeletons above take [is_redirect], [need_response_body] and the receiving state's [can_proceed] as flags.  The
+    functions that compute them -- [Inner::is_redirect] (3xx except 304), [BodyState::need_response_body] (no body / zero length),
+    [Call<RecvBody>::is_ended] / [is_close_delimited] / [is_on_chunk_boundary] and [Flow<RecvBody>::can_proceed] -- are translated
+    on every run as well and proved equal to the model's (proofs/Gen2_equiv_small_flags.v; a panic for a panic: the unwrap of a
+    missing reader). *)
+From Hoot.proofs Require Import Gen2_equiv_small_flags.
+Theorem c09_code_is_redirect : forall f, gen_inner_is_redirect (i_status f) = is_redirect f.
+Proof. exact gen_inner_is_redirect_eq. Qed.
+Print Assumptions c09_code_is_redirect.
+Theorem c09_code_need_response_body : forall c, gen_need_response_body (c_reader c) = need_response_body c.
+Proof. exact gen_need_response_body_eq. Qed.
+Print Assumptions c09_code_need_response_body.
+Theorem c09_code_recv_body_can_proceed : forall f,
+  i_holder f = HRecvBody ->
+  same_res (gen_recv_body_can_proceed (c_reader (i_call f))) (recv_body_can_proceed f).
+Proof. exact gen_recv_body_can_proceed_eq. Qed.
+Print Assumptions c09_code_recv_body_can_proceed.
+Theorem c09_code_call_reader_questions : forall c,
+  same_res (gen_call_is_ended (c_reader c)) (bind (reader_of c) (fun r => Ok (reader_is_ended r))) /\
+  same_res (gen_call_is_close_delimited (c_reader c)) (bind (reader_of c) (fun r => Ok (reader_is_close r))) /\
+  same_res (gen_call_is_on_chunk_boundary (c_reader c)) (bind (reader_of c) (fun r => Ok (reader_on_boundary r))).
+Proof.
+  intros c. split; [exact (gen_call_is_ended_eq c)|split; [exact (gen_call_is_close_delimited_eq c)|exact (gen_call_is_on_chunk_boundary_eq c)]].
+Qed.
+Print Assumptions c09_code_call_reader_questions.
